@@ -47,6 +47,11 @@ func (c *EventCache) len() int {
 }
 
 func (c *EventCache) Add(event *Event) (added bool) {
+	if event.EventType() == EventTypeEphemeral {
+		// ephemeral events are never stored
+		return true
+	}
+
 	c.mu.Lock()
 	defer c.mu.Unlock()
 
@@ -212,12 +217,9 @@ func (c *EventCache) getEventKey(event *Event) string {
 		idx := slices.IndexFunc(event.Tags, func(t Tag) bool {
 			return len(t) >= 1 && t[0] == "d"
 		})
-		if idx < 0 {
-			return ""
-		}
-
+		// an addressable event without d tag has the d value ""
 		d := ""
-		if len(event.Tags[idx]) > 1 {
+		if idx >= 0 && len(event.Tags[idx]) > 1 {
 			d = event.Tags[idx][1]
 		}
 
